@@ -663,6 +663,23 @@ func genPolicy(o *c.Out) {
 			}
 		}
 	}
+	// burst: a call in progress, then thousands of other calls each failing once
+	// (no clock movement, so every one of them is still tracked), then the first
+	// call keeps failing: its retry budget must not be refreshed or frozen by how
+	// many other sequences the store holds
+	for _, a := range []int{3, 2, 4}[:o.Scale(1, 3, 1)] { // >= 3: a stored state is updated (not only created and deleted)
+		k := PolicyCase{Attempts: a, Cooldown: 1, Multiplier: 2, Ranges: [][2]int{{500, 599}}, T0: t0}
+		k.Events = append(k.Events, PolEv{Kind: "resp", Seq: 1, New: true, Status: 500})
+		others := o.Scale(5000, 12000, 5000) // the model keeps an association list: cost is quadratic
+		for s := 2; s < 2+others; s++ {
+			k.Events = append(k.Events, PolEv{Kind: "resp", Seq: s, New: true, Status: 500})
+		}
+		for j := 0; j < a+4; j++ {
+			k.Events = append(k.Events, PolEv{Kind: "resp", Seq: 1, New: false, Status: 500})
+		}
+		o.Count("policy:burst")
+		runPolicy(o, k)
+	}
 	// random: three interleaved sequences, clock movement around the ttl of the
 	// stored state, sleepers released or not
 	presets := append([][][2]int{{}, {{503, 500}}}, rangePresets...)
